@@ -269,12 +269,16 @@ class _Rename(ast.NodeTransformer):
 def node_method(repo: Repo, qualname: str) -> ast.AST:
     """Normal form of a node-class method (locals substituted, accumulate loops as comprehensions, helpers inlined)
     with the receiver spelled `cls`, so that rules do not depend on local names or on how the value is staged."""
+    memo = repo.__dict__.setdefault("_c16_node_methods", {})
+    if qualname in memo:  # rules only read the normal form
+        return memo[qualname]
     f = clone(nfunc(repo, NODES, qualname, copyprop="all", loops=True))
     p0 = _first_param(f)
     if p0 and p0 != "cls":
         f = _Rename(p0, "cls").visit(f)
     ast.fix_missing_locations(f)
     _attach_parents(f)
+    memo[qualname] = f
     return f
 
 
@@ -522,6 +526,12 @@ def abs_eval(e: ast.AST, env: Dict[str, object], fn: ast.AST, _depth: int = 0):
             if isinstance(v, _AbsClass) and all(kinds):
                 return any(str(k).split(".")[-1] in v.names for k in kinds)
             raise _Unknown("issubclass")
+        if fname == "hasattr" and len(e.args) == 2 and isinstance(e.args[1], ast.Constant):
+            base = ev(e.args[0])
+            if isinstance(base, _AbsClass):
+                base.attr(e.args[1].value)  # known to exist, else _Unknown: a subclass may add the attribute
+                return True
+            raise _Unknown("hasattr")
         if fname == "getattr" and len(e.args) >= 2 and isinstance(e.args[1], ast.Constant):
             base = ev(e.args[0])
             if isinstance(base, _AbsClass):
@@ -1309,6 +1319,84 @@ def metadata_none_dereferences(f: ast.AST) -> List[Tuple[ast.AST, str, str, str]
     return out
 
 
+# --------------------------------------------------------------------------- round 7: who publishes what a generated processor stores on itself
+def _is_receiver_object(e: ast.AST, recv: str) -> bool:
+    """`recv`, `recv.__class__`, `type(recv)`."""
+    if isinstance(e, ast.Name):
+        return e.id == recv
+    if isinstance(e, ast.Attribute) and e.attr == "__class__":
+        return _is_receiver_object(e.value, recv)
+    if isinstance(e, ast.Call) and isinstance(e.func, ast.Name) and e.func.id == "type" and len(e.args) == 1:
+        return _is_receiver_object(e.args[0], recv)
+    return False
+
+
+def receiver_stored_attrs(repo: Repo, tmpl) -> Set[str]:
+    """Attribute names that a method of a generated class stores on its receiver (or on the receiver's class) while it
+    runs: `self.X = v`, `self.__class__.X = v`, `type(self).X = v`, `setattr(self, "X", v)` - the run-time state a
+    generated processor leaves for whoever drives it."""
+    out: Set[str] = set()
+    for rel, _tname, attrs, _bases, site in tmpl:
+        for _attr, f, binding in member_functions(repo, rel, attrs, site):
+            if isinstance(f, ast.Lambda) or binding in ("staticmethod", "classmethod", "property"):
+                continue
+            recv = _first_param(f)
+            if not recv:
+                continue
+            for n in ast.walk(f):
+                targets: List[ast.AST] = []
+                if isinstance(n, ast.Assign):
+                    targets = list(n.targets)
+                elif isinstance(n, (ast.AugAssign, ast.AnnAssign)):
+                    targets = [n.target]
+                elif isinstance(n, ast.Call) and isinstance(n.func, ast.Name) and n.func.id == "setattr" and len(n.args) == 3 and isinstance(n.args[1], ast.Constant) and isinstance(n.args[1].value, str) and _is_receiver_object(n.args[0], recv):
+                    out.add(n.args[1].value)
+                for t in targets:
+                    for x in (t.elts if isinstance(t, (ast.Tuple, ast.List)) else [t]):
+                        if isinstance(x, ast.Attribute) and _is_receiver_object(x.value, recv):
+                            out.add(x.attr)
+    return out
+
+
+def _is_run_processor(fn: ast.AST, e: ast.AST, recv: str, _seen: Optional[Set[str]] = None) -> bool:
+    """`recv.processor`, its class (`.__class__`, `type(..)`), or a local that holds one of them."""
+    _seen = _seen if _seen is not None else set()
+    if isinstance(e, ast.Attribute) and e.attr == "processor" and isinstance(e.value, ast.Name) and e.value.id == recv:
+        return True
+    if isinstance(e, ast.Attribute) and e.attr == "__class__":
+        return _is_run_processor(fn, e.value, recv, _seen)
+    if isinstance(e, ast.Call) and isinstance(e.func, ast.Name) and e.func.id == "type" and len(e.args) == 1:
+        return _is_run_processor(fn, e.args[0], recv, _seen)
+    if isinstance(e, ast.Name) and e.id not in _seen and e.id != recv:
+        _seen.add(e.id)
+        vals = assigned_value(fn, e.id)
+        return bool(vals) and all(_is_run_processor(fn, v, recv, _seen) for v in vals)
+    return False
+
+
+def publishing_node_classes(repo: Repo, published: Set[str]) -> Set[str]:
+    """Node classes one of whose own instance methods (normal form: private helpers inlined, module constants
+    substituted) reads, from the processor the node runs, an attribute among *published*."""
+    out: Set[str] = set()
+    mod = repo.module(NODES)
+    for qn, node in mod.defs.items():
+        if not (isinstance(node, ast.ClassDef) and "." not in qn):
+            continue
+        for st in node.body:
+            if not isinstance(st, FuncNode) or any(dotted_name(d) in _BINDERS for d in st.decorator_list):
+                continue
+            nf = nfunc(repo, NODES, f"{qn}.{st.name}")
+            recv = _first_param(nf)
+            if not recv:
+                continue
+            for n in ast.walk(nf):
+                if isinstance(n, ast.Call) and isinstance(n.func, ast.Name) and n.func.id == "getattr" and len(n.args) >= 2 and isinstance(n.args[1], ast.Constant) and n.args[1].value in published and _is_run_processor(nf, n.args[0], recv):
+                    out.add(qn)
+                elif isinstance(n, ast.Attribute) and isinstance(n.ctx, ast.Load) and n.attr in published and _is_run_processor(nf, n.value, recv):
+                    out.add(qn)
+    return out
+
+
 def run(repo: Repo, R: Report) -> None:
     R.assume(
         "inspect.getattr_static(cls, name) sees a classmethod object exactly when the template binds the name to classmethod(...) / @classmethod (directly or by inheritance from a base that does)",
@@ -1464,14 +1552,10 @@ def run(repo: Repo, R: Report) -> None:
     # `_last_created_sequences` in its item processing) must also declare them: its get_created_keys mirrors the
     # processor's keys next to its own context key, without duplicates.  Sibling classes found by that role.
     nodes_mod = repo.module(NODES)
-    publishers: List[str] = []
-    for qn, node in nodes_mod.defs.items():
-        if isinstance(node, ast.ClassDef) and "." not in qn:
-            meth = next((st for st in node.body if isinstance(st, FuncNode) and st.name == "_process_single_item_with_context"), None)
-            if meth is not None and any(isinstance(c, ast.Constant) and c.value == "_last_created_sequences" for c in ast.walk(meth)):
-                publishers.append(qn)
+    published = receiver_stored_attrs(repo, tmpl)
+    publishers = sorted(publishing_node_classes(repo, published))
     if not publishers:
-        raise AnalysisError("no node class publishes processor-created sequences (`_last_created_sequences`): anchor vanished")
+        raise AnalysisError(f"no node class reads, from the processor it runs, an attribute that a generated processor stores on itself while it processes ({sorted(published)}): anchor of the run-time publication of processor-created sequences vanished")
     for cname in sorted(publishers):
         owner = repo.method(nodes_mod, repo.cls(NODES, cname), "get_created_keys")
         if owner is None:
@@ -1531,6 +1615,7 @@ def run(repo: Repo, R: Report) -> None:
     _round4(repo, R, tmpl)
     _round5(repo, R, tmpl)
     _round6(repo, R, tmpl)
+    _round7(repo, R, tmpl)
 
 
 def _round3(repo: Repo, R: Report, tmpl) -> None:
@@ -2011,18 +2096,45 @@ def type_name_rendering(repo: Repo, mod, f: Optional[ast.AST], v: ast.AST, env: 
     return _resolve_expr(f, v, env), None
 
 
-def catalogue_type_name_attrs(repo: Repo) -> Dict[str, Set[Tuple[str, str]]]:
-    """{metadata key: {(name attribute, catalogue check)}}: the attribute through which the catalogue names the type that
-    a processor's `input_data_type()` / `output_data_type()` answers, in each comparison with the metadata entry *key*."""
+def _accessor_called(nf: ast.AST, inner: ast.AST) -> Optional[Tuple[str, ast.AST]]:
+    """(accessor, receiver) when the type expression *inner* is (computed from) a call `<R>.<x>_data_type()` /
+    `getattr(<R>, "<x>_data_type")()`."""
+    for c in _flow(nf, inner):
+        if not isinstance(c, ast.Call):
+            continue
+        if isinstance(c.func, ast.Attribute) and c.func.attr in _TYPE_KEYS:
+            return c.func.attr, c.func.value
+        if isinstance(c.func, ast.Call) and isinstance(c.func.func, ast.Name) and c.func.func.id == "getattr" and len(c.func.args) >= 2 and isinstance(c.func.args[1], ast.Constant) and c.func.args[1].value in _TYPE_KEYS:
+            return c.func.args[1].value, c.func.args[0]
+    return None
+
+
+def _is_wrapped_processor(nf: ast.AST, e: ast.AST, cls_param: str) -> bool:
+    """*e* denotes the `processor` attribute of the linted class: `cls.processor`, `getattr(cls, "processor", ..)`, or a
+    local that holds it."""
+    for x in _flow(nf, e):
+        if isinstance(x, ast.Attribute) and x.attr == "processor" and isinstance(x.value, ast.Name) and x.value.id == cls_param:
+            return True
+        if isinstance(x, ast.Call) and isinstance(x.func, ast.Name) and x.func.id == "getattr" and len(x.args) >= 2 and isinstance(x.args[0], ast.Name) and x.args[0].id == cls_param and isinstance(x.args[1], ast.Constant) and x.args[1].value == "processor":
+            return True
+    return False
+
+
+def catalogue_type_comparisons(repo: Repo) -> List[Tuple[str, ast.AST, str, str, str, bool, ast.Compare]]:
+    """(check, its normal form, metadata key, accessor, name attribute, accessor is called on the wrapped processor,
+    comparison) for every comparison in the catalogue of a metadata data-type entry with the name of the type that an
+    `<x>_data_type()` accessor answers.  The checks are read in deep normal form: a helper that fetches the expected
+    name (with its early returns and handlers) is part of the check."""
     mod = repo.module(EXP)
-    out: Dict[str, Set[Tuple[str, str]]] = {}
+    out: List[Tuple[str, ast.AST, str, str, str, bool, ast.Compare]] = []
     for qn, fn in sorted(mod.defs.items()):
         if not isinstance(fn, FuncNode) or "." in qn:
             continue
         if not any(isinstance(c, ast.Constant) and c.value in _TYPE_KEYS for c in ast.walk(fn)):
             continue
-        nf = clone(normalize(repo, mod, fn, copyprop="all"))
+        nf = clone(normalize(repo, mod, fn, copyprop="all", deep=True))
         _attach_parents(nf)
+        p0 = _first_param(nf) or "cls"
         for cmp_ in [n for n in walk_no_nested(nf) if isinstance(n, ast.Compare)]:
             sides = [cmp_.left] + list(cmp_.comparators)
             keys: List[str] = []
@@ -2047,9 +2159,23 @@ def catalogue_type_name_attrs(repo: Repo) -> Dict[str, Set[Tuple[str, str]]]:
                         attr, inner = x.attr, x.value
                     elif isinstance(x, ast.Call) and isinstance(x.func, ast.Name) and x.func.id == "getattr" and len(x.args) >= 2 and isinstance(x.args[1], ast.Constant) and x.args[1].value in _NAME_ATTRS:
                         attr, inner = x.args[1].value, x.args[0]
-                    if attr and inner is not None and any(isinstance(c, ast.Call) and isinstance(c.func, ast.Attribute) and c.func.attr in _TYPE_KEYS for c in _flow(nf, inner)):
-                        for k in keys:
-                            out.setdefault(k, set()).add((attr, qn))
+                    if not attr or inner is None:
+                        continue
+                    acc = _accessor_called(nf, inner)
+                    if acc is None:
+                        continue
+                    for k in keys:
+                        if not any(o2[0] == qn and o2[2] == k and o2[3] == acc[0] and o2[4] == attr and o2[6] is cmp_ for o2 in out):
+                            out.append((qn, nf, k, acc[0], attr, _is_wrapped_processor(nf, acc[1], p0), cmp_))
+    return out
+
+
+def catalogue_type_name_attrs(repo: Repo) -> Dict[str, Set[Tuple[str, str]]]:
+    """{metadata key: {(name attribute, catalogue check)}}: the attribute through which the catalogue names the type that
+    a processor's `input_data_type()` / `output_data_type()` answers, in each comparison with the metadata entry *key*."""
+    out: Dict[str, Set[Tuple[str, str]]] = {}
+    for qn, _nf, k, _acc, attr, _on_proc, _cmp in catalogue_type_comparisons(repo):
+        out.setdefault(k, set()).add((attr, qn))
     return out
 
 
@@ -2666,3 +2792,517 @@ def _round6(repo: Repo, R: Report, tmpl) -> None:
                     R.check(not diff, r_one, mod.rel, qualname_of(encl), f"{call_attr(c)}(.., {kw.arg}={norm(kw.value, 50)}) / {norm(inst.func, 30)}({kw.arg}={norm(arg, 50)})", what, getattr(inst, "lineno", 0))
     if n_sites < 6:
         raise AnalysisError(f"only {n_sites} (class attribute, constructor argument) pairs found at the class-creating call sites (11 confirmed by reading)")
+
+
+# --------------------------------------------------------------------------- round 7: catalogue vs node accessors; partial lookups by advertised names; adapters vs node declarations
+def node_accessor_returns(repo: Repo, nodes_mod, cnode: ast.ClassDef) -> Dict[str, ast.AST]:
+    """{accessor: the one expression it returns} for the `input_data_type` / `output_data_type` that node class *cnode*
+    uses (own or inherited inside nodes.py), in normal form with the receiver spelled `cls`."""
+    returns: Dict[str, ast.AST] = {}
+    for acc in _TYPE_KEYS:
+        owner = repo.method(nodes_mod, cnode, acc)
+        if owner is None or owner[0].rel != NODES:
+            continue
+        f = node_method(repo, qualname_of(owner[1]))
+        rets = [n.value for n in walk_no_nested(f) if isinstance(n, ast.Return) and n.value is not None]
+        if len(rets) == 1:
+            returns[acc] = rets[0]
+    return returns
+
+
+def metadata_chain(repo: Repo, nodes_mod, cnode: ast.ClassDef) -> List[Tuple[str, ast.AST]]:
+    """The `_define_metadata` functions whose writes end up in the metadata of node class *cnode*, most derived first."""
+    chain: List[Tuple[str, ast.AST]] = []
+    for m, c in repo.mro(nodes_mod, cnode):
+        if m.rel != NODES:
+            break
+        dm = next((st for st in c.body if isinstance(st, FuncNode) and st.name == "_define_metadata"), None)
+        if dm is None:
+            continue
+        chain.append((c.name, dm))
+        if not _calls_parent_metadata(dm):
+            break
+    return chain
+
+
+def node_declared_type(repo: Repo, nodes_mod, cnode: ast.ClassDef, key: str, returns: Dict[str, ast.AST]) -> List[Tuple[str, ast.AST, ast.AST, str]]:
+    """(type expression with the class's own accessors expanded, value, statement, owner class) of the writes of
+    metadata entry *key* by the most derived `_define_metadata` in the chain of *cnode* that writes it."""
+    for owner_name, _dm in metadata_chain(repo, nodes_mod, cnode):
+        f = node_method(repo, f"{owner_name}._define_metadata")
+        entries = metadata_entries(f, key)
+        if entries:
+            return [(expand_accessors(type_name_rendering(repo, nodes_mod, f, v)[0], returns), v, st, owner_name) for v, st in entries]
+    return []
+
+
+def node_component_types(repo: Repo, nodes_mod) -> List[Tuple[str, ast.ClassDef, str, Optional[str]]]:
+    """(class name, class, component_type literal, wraps_component_type literal) of every node class of nodes.py whose own
+    `_define_metadata` fixes its component_type."""
+    out = []
+    for qn, c in sorted(nodes_mod.defs.items()):
+        if not (isinstance(c, ast.ClassDef) and "." not in qn and any(isinstance(st, FuncNode) and st.name == "_define_metadata" for st in c.body)):
+            continue
+        f = node_method(repo, f"{qn}._define_metadata")
+        ctypes = {v.value for v, _st in metadata_entries(f, "component_type") if isinstance(v, ast.Constant) and isinstance(v.value, str)}
+        kinds = {v.value for v, _st in metadata_entries(f, "wraps_component_type") if isinstance(v, ast.Constant) and isinstance(v.value, str)}
+        if len(ctypes) == 1:
+            out.append((qn, c, next(iter(ctypes)), next(iter(kinds)) if len(kinds) == 1 else None))
+    return out
+
+
+def _lookup_guarded_on(n: ast.AST, fn: ast.AST, same_table) -> bool:
+    """A membership test *in the same table*, or a handler for the lookup error, surrounds the partial lookup *n*."""
+
+    def tests_membership(t: ast.AST) -> bool:
+        return any(isinstance(c, ast.Compare) and any(isinstance(o, (ast.In, ast.NotIn)) for o in c.ops) and same_table(c.comparators[-1]) for c in ast.walk(t))
+
+    child: ast.AST = n
+    for a in ancestors(n):
+        tests: List[ast.AST] = []
+        if isinstance(a, (ast.If, ast.IfExp, ast.While)) and not any(x is n for x in ast.walk(a.test)):
+            tests.append(a.test)
+        if isinstance(a, (ast.ListComp, ast.SetComp, ast.GeneratorExp, ast.DictComp)):
+            tests.extend(c for g in a.generators for c in g.ifs if not any(x is n for x in ast.walk(c)))
+        if isinstance(a, ast.comprehension):
+            tests.extend(c for c in a.ifs if not any(x is n for x in ast.walk(c)))
+        if isinstance(a, ast.BoolOp) and isinstance(a.op, ast.And):
+            tests.extend(v for v in a.values if v is not child)
+        if any(tests_membership(t) for t in tests):
+            return True
+        if isinstance(a, ast.Try) and any(x is child for x in a.body):
+            for h in a.handlers:
+                kinds = [dotted_name(x) or "?" for x in (h.type.elts if isinstance(h.type, ast.Tuple) else [h.type])] if h.type is not None else ["BaseException"]
+                if any(k.split(".")[-1] in ("KeyError", "LookupError", "Exception", "BaseException") for k in kinds):
+                    return True
+        if isinstance(a, (ast.With, ast.AsyncWith)) and any(x is child for x in a.body):
+            for it in a.items:
+                ce = it.context_expr
+                if isinstance(ce, ast.Call) and (call_name(ce) or "").split(".")[-1] == "suppress" and any((dotted_name(x) or "").split(".")[-1] in ("KeyError", "LookupError", "Exception", "BaseException") for x in ce.args):
+                    return True
+        for fld in ("body", "orelse"):
+            blk = getattr(a, fld, None)
+            if isinstance(blk, list) and any(x is child for x in blk):
+                for prev in blk[: [i for i, x in enumerate(blk) if x is child][0]]:
+                    if isinstance(prev, ast.If) and prev.body and isinstance(prev.body[-1], (ast.Continue, ast.Break, ast.Return, ast.Raise)) and tests_membership(prev.test):
+                        return True
+        child = a
+        if a is fn:
+            break
+    return False
+
+
+def advertised_names_outside_signature(repo: Repo, tmpl) -> List[Tuple[str, str, str, str, str, str, List[str]]]:
+    """(provider, metadata entry, file, template, factory argument, member, base names): class templates that override a
+    name provider with names computed from a factory argument while the metadata entry their base class derives from the
+    signature of `<member>` keeps the parameters of the template's own `def <member>(self, **kwargs)` - the factory
+    attaches no `__signature__` to it and the template's `_define_metadata` (if any) does not rewrite the entry.  For
+    such classes the provider's names are not keys of the entry."""
+    out = []
+    provs = configured_name_providers(repo, tmpl)
+    for rel, tname, attrs, bases, site in tmpl:
+        mine = [p for p in provs if p[0] == rel and p[1] == tname]
+        if not mine:
+            continue
+        factory = enclosing_function(site)
+        members = member_functions(repo, rel, attrs, site)
+        plain = {a: f for a, f, b in members if b == "plain" and isinstance(f, FuncNode)}
+        if not plain or factory is None:
+            continue
+        keys = signature_derived_entries(repo, bases, set(plain))
+        if not keys:
+            continue
+        if any((isinstance(x, ast.Constant) and x.value == "__signature__") or (isinstance(x, ast.Attribute) and x.attr == "__signature__") for x in ast.walk(factory)):
+            continue  # the published signature is not the def's: decided by the creation-time rule
+        rewritten: Set[str] = set()
+        for a, f, _b in members:
+            if a == "_define_metadata" and isinstance(f, FuncNode):
+                rewritten |= {k for k in keys if metadata_entries(f, k)}
+        for entry, (_brel, _bqn, member) in sorted(keys.items()):
+            if entry in rewritten:
+                continue
+            mf = plain[member]
+            if mf.args.kwarg is None:
+                continue  # no **kwargs: the advertised names cannot reach the member anyway
+            for _rel, _tn, attr, _f, fparam, _bases, _tattrs in mine:
+                if attr in plain:
+                    continue
+                out.append((attr, entry, rel, tname, fparam, member, list(bases)))
+    return out
+
+
+def metadata_closure(repo: Repo, nodes_mod, cnode: ast.ClassDef) -> List[Tuple[str, ast.AST, Optional[ast.AST]]]:
+    """(qualified name, normal form, call in `_define_metadata` through which it is reached) of the functions of nodes.py
+    that run when the metadata of node class *cnode* is computed: the `_define_metadata` chain and the methods it calls
+    on `cls` (resolved along the MRO of *cnode*), three levels."""
+    out: List[Tuple[str, ast.AST, Optional[ast.AST]]] = []
+    seen: Set[str] = set()
+    todo: List[Tuple[str, Optional[ast.AST], int]] = [(f"{o}._define_metadata", None, 0) for o, _dm in metadata_chain(repo, nodes_mod, cnode)]
+    while todo:
+        qn, via, depth = todo.pop(0)
+        if qn in seen:
+            continue
+        seen.add(qn)
+        f = node_method(repo, qn)
+        out.append((qn, f, via))
+        if depth >= 3:
+            continue
+        for c in ast.walk(f):
+            if isinstance(c, ast.Call) and isinstance(c.func, ast.Attribute) and isinstance(c.func.value, ast.Name) and c.func.value.id == "cls":
+                owner = repo.method(nodes_mod, cnode, c.func.attr)
+                if owner is not None and owner[0].rel == NODES:
+                    todo.append((qualname_of(owner[1]), via if via is not None else c, depth + 1))
+    return out
+
+
+class _CanonW(ast.NodeTransformer):
+    """Spell the wrapped class `W`: the factory parameter / `cls.processor`; `cast(T, x)` is x."""
+
+    def __init__(self, wname: Optional[str]):
+        self.wname = wname
+
+    def visit_Name(self, node: ast.Name):
+        return ast.copy_location(ast.Name(id="W", ctx=ast.Load()), node) if self.wname and node.id == self.wname else node
+
+    def visit_Attribute(self, node: ast.Attribute):
+        if self.wname is None and node.attr == "processor" and isinstance(node.value, ast.Name) and node.value.id == "cls":
+            return ast.copy_location(ast.Name(id="W", ctx=ast.Load()), node)
+        self.generic_visit(node)
+        return node
+
+    def visit_Call(self, node: ast.Call):
+        self.generic_visit(node)
+        if call_attr(node) == "cast" and len(node.args) == 2 and not node.keywords:
+            return node.args[1]
+        return node
+
+
+def _canon_w(e: ast.AST, wname: Optional[str]) -> str:
+    return ast.unparse(_CanonW(wname).visit(ast.Expression(body=clone(e))).body)
+
+
+def _inline_closure_calls(repo: Repo, rel: str, e: ast.AST, at: ast.AST, depth: int = 0) -> ast.AST:
+    """*e* with every argument-less call of a closure / module function that consists of one `return <expr>` replaced by
+    that expression (the normaliser leaves closures alone)."""
+    if depth > 3:
+        return e
+
+    class T(ast.NodeTransformer):
+        def visit_Call(self, node: ast.Call):
+            self.generic_visit(node)
+            if isinstance(node.func, ast.Name) and not node.args and not node.keywords:
+                ds = [d for d in _resolve_callable(repo, rel, node.func.id, at) if isinstance(d, FuncNode)]
+                if len(ds) == 1 and not _params(ds[0]):
+                    body = [st for st in ds[0].body if not (isinstance(st, ast.Expr) and isinstance(st.value, ast.Constant))]
+                    if len(body) == 1 and isinstance(body[0], ast.Return) and body[0].value is not None:
+                        return _inline_closure_calls(repo, rel, clone(body[0].value), ds[0], depth + 1)
+            return node
+
+    return T().visit(ast.Expression(body=clone(e))).body
+
+
+def possible_returns(stmts: List[ast.stmt], env: Dict[str, object], fn: ast.AST) -> Tuple[List[ast.AST], bool]:
+    """(the expressions a run of *stmts* can return under the abstract facts *env*, whether it can fall off the end):
+    branches whose test the facts decide are pruned, the others are both followed."""
+    out: List[ast.AST] = []
+
+    def split(v: Optional[ast.AST]) -> List[ast.AST]:
+        if isinstance(v, ast.IfExp):
+            try:
+                val: Optional[bool] = bool(abs_eval(v.test, env, fn))
+            except _Unknown:
+                val = None
+            return (split(v.body) if val is not False else []) + (split(v.orelse) if val is not True else [])
+        return [v if v is not None else ast.Constant(value=None)]
+
+    for st in stmts:
+        if isinstance(st, ast.Return):
+            out.extend(split(st.value))
+            return out, False
+        if isinstance(st, ast.Raise):
+            return out, False
+        if isinstance(st, ast.If):
+            try:
+                val: Optional[bool] = bool(abs_eval(st.test, env, fn))
+            except _Unknown:
+                val = None
+            falls = []
+            for branch, want in ((st.body, True), (st.orelse, False)):
+                if val is None or val is want:
+                    r, ft = possible_returns(branch, env, fn)
+                    out.extend(r)
+                    falls.append(ft)
+            if not any(falls):
+                return out, False
+            continue
+        if isinstance(st, ast.Try):
+            r, ft = possible_returns(list(st.body) + list(st.orelse), env, fn)
+            out.extend(r)
+            falls = [ft]
+            for h in st.handlers:
+                r2, f2 = possible_returns(h.body, env, fn)
+                out.extend(r2)
+                falls.append(f2)
+            if st.finalbody:
+                r3, f3 = possible_returns(st.finalbody, env, fn)
+                out.extend(r3)
+                if not f3:
+                    return out, False
+            if not any(falls):
+                return out, False
+            continue
+        if isinstance(st, (ast.For, ast.AsyncFor, ast.While, ast.With, ast.AsyncWith)):
+            r, _ft = possible_returns(st.body, env, fn)
+            out.extend(r)
+            if isinstance(st, (ast.For, ast.AsyncFor, ast.While)) and st.orelse:
+                r, _ft = possible_returns(st.orelse, env, fn)
+                out.extend(r)
+    return out, True
+
+
+def _selected_under(d: ast.AST, factory: ast.AST, env: Dict[str, object]) -> Optional[bool]:
+    """Is the definition *d* (nested in *factory*) executed under the facts *env*?  Every enclosing `if` is evaluated."""
+    child: ast.AST = d
+    res: Optional[bool] = True
+    for a in ancestors(d):
+        if a is factory:
+            break
+        if isinstance(a, ast.If):
+            in_body = any(x is child for x in a.body)
+            in_else = any(x is child for x in a.orelse)
+            if in_body or in_else:
+                try:
+                    val = bool(abs_eval(a.test, env, factory))
+                except _Unknown:
+                    val = None
+                if val is None:
+                    res = None
+                elif val != in_body:
+                    return False
+        child = a
+    return res
+
+
+def adapter_sites(repo: Repo) -> List[Tuple[object, ast.AST, str, object, ast.AST, str, ast.Call]]:
+    """(module, enclosing function, node base class name, adapter factory module, adapter factory function, its parameter
+    that receives the raw class, the class-creating call): places where a node class is declared over a raw class
+    (`processor=X` handed to the class creator) while its instance is constructed with `F(X)`, F a function of the
+    package - the node declares from X and runs the adapter F builds."""
+    out = []
+    creators = class_creators(repo)
+    names = set().union(*creators.values()) if creators else set()
+    for mod in repo.modules.values():
+        if mod.rel.startswith(("semantiva/examples/", "semantiva/contracts/", "tests/")):
+            continue
+        for c in [n for n in ast.walk(mod.tree) if isinstance(n, ast.Call) and call_attr(n) in names]:
+            encl = enclosing_function(c)
+            if encl is None or encl.name in names:
+                continue
+            st = stmt_of(c)
+            made: Optional[str] = st.targets[0].id if isinstance(st, ast.Assign) and len(st.targets) == 1 and isinstance(st.targets[0], ast.Name) and st.value is c else None
+            insts = [x for x in ast.walk(encl) if isinstance(x, ast.Call) and ((made and isinstance(x.func, ast.Name) and x.func.id == made) or x.func is c)]
+            base_e = kwarg(c, "base_cls") or (c.args[1] if len(c.args) > 1 else None)
+            base = _class_by_name(repo, (dotted_name(base_e) or "?").split(".")[-1]) if base_e is not None else None
+            raw = kwarg(c, "processor")
+            if not insts or base is None or not isinstance(raw, ast.Name):
+                continue
+            init = repo.method(base[0], base[1], "__init__")
+            iparams = _explicit_params(init[1])[1:] if init else []
+            for inst in insts:
+                arg = kwarg(inst, "processor")
+                if arg is None and "processor" in iparams and iparams.index("processor") < len(inst.args):
+                    arg = inst.args[iparams.index("processor")]
+                seen = 0
+                while isinstance(arg, ast.Name) and arg.id != raw.id and seen < 4:
+                    seen += 1
+                    vals = assigned_value(encl, arg.id)
+                    arg = vals[0] if len(vals) == 1 else None
+                if not isinstance(arg, ast.Call):
+                    continue
+                pos = [i for i, a in enumerate(arg.args) if isinstance(a, ast.Name) and a.id == raw.id]
+                kws = [k.arg for k in arg.keywords if k.arg and isinstance(k.value, ast.Name) and k.value.id == raw.id]
+                if not pos and not kws:
+                    continue
+                for tm, tf in repo.resolve_call(mod, arg):
+                    if not isinstance(tf, FuncNode):
+                        continue
+                    ps = _explicit_params(tf)
+                    if ps and ps[0] in ("self", "cls") and isinstance(arg.func, ast.Attribute):
+                        ps = ps[1:]
+                    wparam = kws[0] if kws and kws[0] in ps else (ps[pos[0]] if pos and pos[0] < len(ps) else None)
+                    if wparam:
+                        out.append((mod, encl, base[1].name, tm, tf, wparam, c))
+    return out
+
+
+def may_reach(fn: ast.AST, node: ast.AST, env: Dict[str, object]) -> Tuple[bool, List[str]]:
+    """Can a run of *fn* evaluate *node* for a class with the abstract facts *env*?  False only when a test that the
+    facts decide excludes it (an enclosing `if` / conditional expression / `and` / `or`, or an earlier `if <test>:
+    return` in an enclosing block); tests the facts do not decide (they concern the wrapped processor) are passable.
+    Second value: the deciding tests, for the message."""
+    seen: List[str] = []
+
+    def val(t: ast.AST) -> Optional[bool]:
+        try:
+            v = bool(abs_eval(t, env, fn))
+        except _Unknown:
+            return None
+        seen.append(f"`{norm(t, 100)}` is {v}")
+        return v
+
+    def leaves(stmts: List[ast.stmt]) -> bool:
+        return bool(stmts) and isinstance(stmts[-1], (ast.Return, ast.Raise, ast.Continue, ast.Break))
+
+    child: ast.AST = node
+    for a in ancestors(node):
+        if isinstance(a, (ast.If, ast.While)) and not any(x is node for x in ast.walk(a.test)):
+            v = val(a.test)
+            if v is not None and ((any(x is child for x in a.body) and not v) or (any(x is child for x in a.orelse) and v)):
+                return False, seen
+        elif isinstance(a, ast.IfExp) and child is not a.test:
+            v = val(a.test)
+            if v is not None and ((child is a.body and not v) or (child is a.orelse and v)):
+                return False, seen
+        elif isinstance(a, ast.BoolOp):
+            idx = next((i for i, x in enumerate(a.values) if x is child), 0)
+            for x in a.values[:idx]:
+                v = val(x)
+                if v is not None and v != isinstance(a.op, ast.And):
+                    return False, seen
+        for fld in ("body", "orelse", "finalbody"):
+            blk = getattr(a, fld, None)
+            if isinstance(blk, list) and any(x is child for x in blk):
+                for prev in blk[: [i for i, x in enumerate(blk) if x is child][0]]:
+                    if isinstance(prev, ast.If) and (leaves(prev.body) or leaves(prev.orelse)):
+                        v = val(prev.test)
+                        if v is not None and ((v and leaves(prev.body)) or (not v and leaves(prev.orelse))):
+                            return False, seen
+        child = a
+        if a is fn:
+            break
+    return True, seen
+
+
+def _round7(repo: Repo, R: Report, tmpl) -> None:
+    nodes_mod = repo.module(NODES)
+    exp_mod = repo.module(EXP)
+    kinds_of_nodes = node_component_types(repo, nodes_mod)
+    if len(kinds_of_nodes) < 6:
+        raise AnalysisError(f"{len(kinds_of_nodes)} node classes whose `_define_metadata` fixes a component_type found (10 confirmed by reading)")
+
+    # ------------------------------------------------------------------ the catalogue compares an entry with the accessor the node mirrors
+    r_acc = R.rule("C16-D2-catalogue-compares-entry-with-mirrored-accessor", "where a catalogue check compares the `input_data_type` / `output_data_type` entry of a node class's metadata with the name of the type that `<processor>.<x>_data_type()` answers, `<x>_data_type` is the accessor that the node classes the check applies to (decided by evaluating its component_type tests) mirror in that entry (the entry written by `_define_metadata`, with the class's own accessors expanded): otherwise a node class generated for a processor whose two accessors answer different types gets an error-level diagnostic although it declares exactly what the framework's node classes declare", 5)
+    comps = [t for t in catalogue_type_comparisons(repo) if t[5]]
+    for qn, nf, key, acc, _attr, _on_proc, cmp_ in comps:
+        nps = _params(nf)
+        if len(nps) < 2:
+            raise AnalysisError(f"{EXP}:{qn} no longer takes (cls, metadata)")
+        n_app = 0
+        for cname, cnode, ctype, _kind in kinds_of_nodes:
+            env = {nps[0]: _AbsClass([cname] + [c.name for _m, c in repo.mro(nodes_mod, cnode)][1:]), nps[1]: {"component_type": ctype}}
+            applies, _seen = may_reach(nf, cmp_, env)
+            if not applies:
+                continue
+            returns = node_accessor_returns(repo, nodes_mod, cnode)
+            declared = node_declared_type(repo, nodes_mod, cnode, key, returns)
+            if not declared:
+                R.note(f"{NODES}:{cname}: no write of metadata['{key}'] found; `{EXP}:{qn}` applies to it")
+                continue
+            n_app += 1
+            want = f"cls.processor.{acc}()"
+            for got, v, _st, owner in declared:
+                other = got[len("cls.processor."):-2] if got.startswith("cls.processor.") and got.endswith("()") else None
+                R.check(got == want, r_acc, EXP, qn, f"{norm(cmp_, 90)}  [{cname}: metadata['{key}'] = {norm(v, 60)}]",
+                        f"`{EXP}:{qn}` applies to `{cname}` classes (component_type `{ctype}`) and compares their metadata entry '{key}' with `<processor>.{acc}().__name__`, while `{NODES}:{owner}._define_metadata` writes that entry from `{got}`"
+                        f"{' - the ' + other + ' accessor of the wrapped processor' if other else ''}: a node class generated for a processor that declares both accessors with different types (a probe may declare an `output_data_type`, the catalogue only warns about it) gets an error-level diagnostic from this check although node and processor mirror each other - the accessor the catalogue reads and the accessor the node classes mirror have to be the same",
+                        getattr(cmp_, "lineno", 0) or getattr(exp_mod.defs[qn], "lineno", 0))
+        if n_app == 0:
+            R.note(f"{EXP}:{qn}: the comparison of metadata['{key}'] applies to no node class of {NODES}")
+
+    # ------------------------------------------------------------------ advertised names are not keys of the signature-derived table
+    r_tot = R.rule("C16-D2-node-metadata-lookups-total-for-generated-processors", "no function that runs when a node class computes its metadata (`_define_metadata` and the classmethods it calls on `cls`) looks a name obtained from a name provider of the wrapped processor (`get_processing_parameter_names()`, ..) up in a signature-derived entry of the processor's metadata (`parameters`) with a hard subscript, unless a membership test in that entry or a KeyError handler guards it: the rename / delete / template factories generate processors that override the provider with configuration keys while `_process_logic(self, **kwargs)` leaves the entry empty, so the lookup raises for exactly those generated classes and the node class's metadata (created / suppressed / required keys, wrapped component) is lost or replaced by the handler's fallbacks", 6)
+    outside = advertised_names_outside_signature(repo, tmpl)
+    if not outside:
+        raise AnalysisError("no class template that advertises names computed from a factory argument next to a `**kwargs` member found (rename / delete / template context processors confirmed by reading): anchor of C16-D2-node-metadata-lookups-total-for-generated-processors vanished")
+    R.extra["providers_advertising_names_outside_the_signature"] = sorted({f"{t[2]}:{t[3]}.{t[0]} !<= {t[1]}" for t in outside})
+    for cname, cnode, _ctype, kind in kinds_of_nodes:
+        relevant = [t for t in outside if kind is None or kind in mro_names(repo, t[6])]
+        if not relevant:
+            continue
+        entries = {t[1]: (t[2], t[3], t[5]) for t in relevant}
+        provs = {t[0] for t in relevant}
+        for qn, f, via in metadata_closure(repo, nodes_mod, cnode):
+            bad = []
+            for n in ast.walk(f):
+                if not (isinstance(n, ast.Subscript) and isinstance(n.ctx, ast.Load) and not isinstance(n.slice, (ast.Constant, ast.Slice))):
+                    continue
+                table = _is_entry(n.value, f, entries)
+                if not table:
+                    continue
+                if not any(isinstance(x, ast.Attribute) and x.attr in ("get_metadata", "_define_metadata") for x in value_flow(f, n.value)):
+                    continue
+                hit = next((x for x in value_flow(f, n.slice) if isinstance(x, ast.Call) and ((isinstance(x.func, ast.Attribute) and x.func.attr in provs) or (isinstance(x.func, ast.Call) and isinstance(x.func.func, ast.Name) and x.func.func.id == "getattr" and len(x.func.args) >= 2 and isinstance(x.func.args[1], ast.Constant) and x.func.args[1].value in provs))), None)
+                if hit is None:
+                    continue
+                table_text = ast.unparse(n.value)
+                if _lookup_guarded_on(n, f, lambda e, t=table_text, tb=table: ast.unparse(e) == t or _is_entry(e, f, {tb: entries[tb]}) == tb):
+                    continue
+                bad.append((n, table, hit))
+            where = qn if qn.startswith(cname + ".") else f"{cname} -> {qn}"
+            if not bad:
+                R.ok(r_tot, NODES, where, "no unguarded lookup of an advertised name in a signature-derived metadata entry")
+                continue
+            for n, table, hit in bad:
+                trel, tname, member = entries[table]
+                pname = hit.func.attr if isinstance(hit.func, ast.Attribute) else hit.func.args[1].value  # type: ignore[union-attr]
+                swallowed = via is not None and any(isinstance(a, ast.Try) for a in ancestors(via))
+                R.violation(r_tot, NODES, where, norm(stmt_of(n), 110),
+                            f"`{norm(n, 70)}` looks up, in the '{table}' entry of the wrapped processor's metadata, a name that comes from `{norm(hit, 60)}`; the classes generated by `{trel}:{tname}` override `{pname}` with configuration keys while their `{member}(self, **kwargs)` leaves '{table}' without those keys: for every rename / delete / template node the lookup raises KeyError, "
+                            + ("which the handler around `" + norm(via, 50) + "` in `_define_metadata` swallows - the node class then declares the handler's fallbacks instead of the created / suppressed / required keys and the wrapped component of its processor" if swallowed else "and get_metadata() of the generated node class fails (SVA100; the class is not registered, SVA107)")
+                            + ": the created keys the node wrapper declares no longer mirror the processor it wraps",
+                            getattr(n, "lineno", 0))
+
+    # ------------------------------------------------------------------ an adapter declares the types of the node class built over the raw class
+    r_ad = R.rule("C16-D2-adapter-types-mirror-node-declaration", "where the node factory declares a node class over a raw class X (`processor=X` on the generated class) and runs the adapter `F(X)` in the node instance, every value the adapter's `input_data_type` / `output_data_type` can return for a class of the wrapped kind (the definitions selected by the factory's `issubclass` branches, tests inside them decided where the kind's own attributes decide them) is the expression that the node class's accessor returns over X: sources take NoDataType and answer X's output type, sinks answer X's input type on both sides - otherwise the types the node wrapper declares are not those of the processor it runs", 6)
+    sites = adapter_sites(repo)
+    if not sites:
+        raise AnalysisError("no node class declared over a raw class while its instance runs an adapter built from it found (4 IO node kinds confirmed by reading): anchor of C16-D2-adapter-types-mirror-node-declaration vanished")
+    done: Set[Tuple[str, int, str]] = set()
+    for mod, encl, bname, tm, tf, wparam, _c in sites:
+        if (bname, id(tf), wparam) in done:
+            continue
+        done.add((bname, id(tf), wparam))
+        hit = _class_by_name(repo, bname)
+        if hit is None or hit[0].rel != NODES:
+            continue
+        cnode = hit[1]
+        kind = next((k for cn, _c2, _ct, k in kinds_of_nodes if cn == bname), None)
+        if kind is None:
+            R.note(f"{NODES}:{bname}: wrapped component kind not declared; adapter types not compared")
+            continue
+        returns = node_accessor_returns(repo, nodes_mod, cnode)
+        env: Dict[str, object] = {wparam: _AbsTemplate(mro_names(repo, [kind]), _defined_along(repo, [kind], set()))}
+        repo.consulted.add(tm.rel)
+        for rel, tname, attrs, _bases, site in tmpl:
+            if rel != tm.rel or enclosing_function(site) is not tf:
+                continue
+            members = member_functions(repo, rel, attrs, site)
+            for acc in _TYPE_KEYS:
+                if acc not in returns:
+                    continue
+                want = _canon_w(ast.parse(expand_accessors(ast.parse(f"cls.{acc}()", mode="eval").body, returns), mode="eval").body, None)
+                defs = [(f, _selected_under(f, tf, env)) for a, f, _b in members if a == acc and isinstance(f, FuncNode)]
+                live = [f for f, sel in defs if sel is not False]
+                if not live:
+                    continue
+                for f in live:
+                    nf = clone(normalize(repo, tm, f, copyprop="all"))
+                    _attach_parents(nf)
+                    rets, falls = possible_returns(list(nf.body), env, nf)
+                    got = sorted({_canon_w(_inline_closure_calls(repo, rel, r, f), wparam) for r in rets} | ({"None"} if falls else set()))
+                    wrong = [g for g in got if g != want]
+                    R.check(not wrong, r_ad, rel, f"{tname}.{acc} [{kind}]", f"{f.name} returns {' / '.join(got)}",
+                            f"`{mod.rel}:{qualname_of(encl)}` declares the node class over the raw {kind} class (`{bname}.{acc}()` answers `{want}`, W the wrapped class) and runs the adapter that `{tm.rel}:{qualname_of(tf)}` builds from it, whose `{acc}` ({f.name}, line {f.lineno}) can answer `{wrong[0] if wrong else ''}` for a {kind}: "
+                            + (f"a {kind} class is free to declare that attribute (the catalogue at most warns), and then " if any(isinstance(x, ast.Call) and isinstance(x.func, ast.Name) and x.func.id == "hasattr" for x in ast.walk(nf)) else "")
+                            + "the generated node class declares one type and the processor it runs another - the declared input/output types of the node wrapper do not mirror the processor it wraps (sources take no data, sinks pass their input type through)",
+                            f.lineno)
